@@ -234,9 +234,11 @@ def shard_b(args):
         if step <= 1 or thorough:
             for r1 in range(h):
                 for r2 in sorted({0, h - 1, (r1 + 1) % h}):
-                    for k in range(1, 40):
+                    for k in range(1, 400):
                         out.append(("nested_at_point", r1, k, r2))
         return out
+
+    exhausted_box = []
 
     def do_query(act, case):
         """Runs one outermost get_cursor_vertical_diff on the loaded world."""
@@ -259,7 +261,9 @@ def shard_b(args):
             cdir = os.path.dirname(os.path.abspath(sys.modules["curtsies"].__file__)) + os.sep
 
             def point_hook(frame, event, arg):
-                if pstate["fired"] or event not in ("call", "c_return") or not frame.f_code.co_filename.startswith(cdir):
+                # a signal handler can run wherever CPython checks for signals while the outer call is active - also inside the
+                # functions it calls in other modules (e.g. logging)
+                if pstate["fired"] or event not in ("call", "c_return"):
                     return
                 pstate["n"] += 1
                 if pstate["n"] == k:
@@ -301,6 +305,8 @@ def shard_b(args):
         finally:
             sys.setprofile(None)
             world.inp.read = old_read
+        if act[0] == "nested_at_point" and not nested_results:
+            exhausted_box.append((act[1], act[3]))
         if act[0] in ("nested", "nested_at_point") and not nested_results:
             final = act[1]  # the hook position lay beyond this query: plain query answered r1
         if act[0] == "nested_at_point" and nested_results:
@@ -334,7 +340,10 @@ def shard_b(args):
     def rec(st, hist, step):
         if step >= depth:
             return
+        exhausted = set()
         for act in actions(step):
+            if act[0] == "nested_at_point" and (act[1], act[3]) in exhausted:
+                continue  # the outer call has fewer asynchronous points than k
             world.load(st)
             case = dict(base, history=hist, action=list(act))
             acc.case(act[0] != "render", key=(h, w, k0, tuple(map(tuple, hist)), act), sample=case)
@@ -348,10 +357,15 @@ def shard_b(args):
                     acc.failure("C18:render_raises:" + type(ex).__name__, case, repr(ex))
                     continue
             else:
-                if not do_query(act, case):
+                del exhausted_box[:]
+                ok = do_query(act, case)
+                exhausted.update(exhausted_box)
+                if not ok:
                     continue
             new = world.save()
             acc.state(hash((h, w, k0, WH.canon_window(new[0]), new[1].r)))
+            if act[0] == "nested_at_point":
+                continue  # explored as a last step only (its point index k already multiplies the menu)
             rec(new, hist + [list(act)], step + 1)
 
     rec(st0, [], 0)
